@@ -19,8 +19,9 @@ META = {
             "(PairUp, UpdateVert, FormLoop, CollapseTri, RemoveIfFolded). ALL SIZES: fan_tiles, quad_terminal_tiles, partition_quad_tiles (terminal + recursive "
             "strips, any value of the rounded `added`), partition_tiles (all n0>=n1>=n2>=1, given split_ok about the two double-precision numbers of the obtuse "
             "branch) and partition_quad_pattern_tiles: whenever the ported function returns, the boundary chain of its triangles is the subdivided outline; "
-            "reindex_consistent; new_indices_once_edges/_interior (every new vertex index written exactly once); subdivided_outlines_balance (for any closed "
-            "oriented soup and any edge divisions the subdivided outlines cancel); simplify_slots_constant and simplify_counts (for every state, fuel, verdict and "
+            "reindex_consistent and reindex_outline (the renaming of Reindex - six orders, mirrored patterns - maps the pattern outline onto the triangle's subdivided "
+            "sides); new_indices_once_edges/_interior (every new vertex index written exactly once); subdivided_outlines_balance and subdivide_balances (for any closed "
+            "oriented soup and any non-negative edge divisions the ported Subdivide returns a closed oriented soup, given split_ok of the patterns used); simplify_slots_constant and simplify_counts (for every state, fuel, verdict and "
             "operation sequence the triangle count never grows); collapse_tri_kills_tri; dedupe_adds_two; prop_slots_disjoint; tolerance facts "
             "(set_tolerance_reports_max, tolerance_ge_epsilon, simplify_tolerance_unchanged, set_epsilon_floor). BOUNDED (exact rational geometry and definedness): "
             "tiles_ok_sound + partition_tiles_bounded (n0<=24, eps=0), partition_quad_tiles_bounded (<=10), get_partition_tiles_bounded, float_pattern_tiles_bounded "
@@ -32,9 +33,7 @@ META = {
             "counts, retained vertices as bit patterns, volume/area, distance to the input surface, references, Euler characteristic, pairing, tolerance).",
     "note": "Trusted: Coq kernel + vm_compute + PrimFloat (hardware binary64), extraction (ExtrOcamlBasic, ExtrOCamlFloats, ExtrOCamlInt63), the C++ harness. "
             "Not proved: that the pattern functions return for sizes beyond the sweeps (definedness depends on double-precision values) and split_ok beyond n0<=24; "
-            "exact geometry (positive areas, interior points) beyond the sweeps; subdivide_balances_partial keeps the hypothesis that each reindexed pattern "
-            "triangulates the global outline of its triangle (the vertex renaming of Reindex is verified only for divisions<=5 and on examples); marked quads and "
-            "keepInterior in Subdivide; 'dead triangles stay dead' needs the pairing invariant (C01); surface displacement <= t (decided on outputs: volume/area "
+            "exact geometry (positive areas, interior points) beyond the sweeps; 'dead triangles stay dead' needs the pairing invariant (C01); surface displacement <= t (decided on outputs: volume/area "
             "within 1e-10 relative, vertex-to-input-surface distance <= 2^-24 by a double-precision brute force); 'new vertex lies on the interpolated surface' "
             "with tangents is not checked (only: original vertices do not move, topology, counts).",
 }
@@ -441,7 +440,7 @@ def run(cx):
         "all-sizes pattern theorems are conditional on the ported function returning a result (definedness is shown by the sweeps: triangles n0<=24, quads<=10) and, in the obtuse branch, on split_ok (swept for n0<=24)",
         "exact-geometry theorems (areas, positions) are exhaustive only up to the bounds in their statements; Refine(n) n<=64; two-triangle Reindex composition<=5",
         "the double-precision rounding decisions are evaluated by Coq's PrimFloat primitives (hardware binary64) - listed by Print Assumptions",
-        "subdivide_balances_partial assumes H_pattern (each reindexed pattern triangulates its triangle's global outline); Subdivide is modelled for meshes without marked quads, keepInterior=false",
+        "subdivide_balances needs split_ok for the patterns used (swept for n0<=24) and non-negative vertex ids / edge divisions",
         "simplify_counts covers the operation sequences CollapseEdge2/SwapEdge (any verdicts); the geometric reject block and CleanupTopology/DedupeEdges are not modelled (DedupeEdge's growth is: +2 triangles)",
         "tolerance wrappers are modelled over an abstract total order (Z) standing for non-NaN doubles",
         "surface displacement of Simplify and 'new vertices lie on the interpolated surface' are checked on outputs only (volume/area rel 1e-10, vertex-to-surface distance 2^-24)",
